@@ -21,6 +21,9 @@ pub struct Opts {
     pub limit: Option<usize>,
     pub idle_ms: u64,
     pub keepalive_ms: Option<u64>,
+    /// every node draws its own idle timeout and keep-alive (QUIC's effective timeout is the
+    /// minimum of the two ends'; each node's own configured value is the bound it is held to)
+    pub hetero: bool,
 }
 
 pub async fn settle(sim: &mut Sim, ms: u64) {
@@ -99,8 +102,17 @@ pub fn node_cfg(key: [u8; 32], o: &Opts) -> NodeCfg {
 
 pub async fn history(mut sim: Sim, o: Opts) -> Result<Value, String> {
     let keys = sim::sorted_keys(o.nodes, &mut sim.rng);
+    let mut max_idle = o.idle_ms;
     for k in keys {
-        let cfg = node_cfg(k, &o);
+        let mut cfg = node_cfg(k, &o);
+        if o.hetero {
+            let idle = [4_000u64, 10_000, 25_000][sim.rng.gen_range(0..3)];
+            // keep-alives, where used, are shorter than every node's idle timeout
+            let ka = if sim.rng.gen_bool(0.5) { Some(1_500u64) } else { None };
+            quic(&mut cfg.config).max_idle_timeout_ms = Some(idle);
+            quic(&mut cfg.config).keep_alive_interval_ms = ka;
+            max_idle = max_idle.max(idle);
+        }
         let i = sim.add_node(cfg).map_err(|e| e.to_string())?;
         sim.run.obs(i as i64, "obs.note", json!({"idle_ms": o.idle_ms}));
     }
@@ -245,7 +257,7 @@ pub async fn history(mut sim: Sim, o: Opts) -> Result<Value, String> {
     for h in pending {
         let _ = tokio::time::timeout(std::time::Duration::from_secs(300), h).await;
     }
-    finish(&mut sim, o.idle_ms).await;
+    finish(&mut sim, max_idle).await;
     Ok(json!({"connects": connects}))
 }
 
@@ -257,6 +269,7 @@ pub fn main(a: &Args) -> i32 {
     let known = a.u64("known", 0) == 1;
     let keepalive = a.u64("keepalive", 3_000);
     let limit = a.0.get("limit").and_then(|v| v.parse().ok());
+    let hetero = a.u64("hetero", 0) == 1;
     run_many(a, "conn", move |seed, sim| {
         let _ = seed;
         history(
@@ -270,6 +283,7 @@ pub fn main(a: &Args) -> i32 {
                 limit,
                 idle_ms: 10_000,
                 keepalive_ms: if keepalive > 0 { Some(keepalive) } else { None },
+                hetero,
             },
         )
     })
